@@ -2,12 +2,41 @@ import ALV.Common.Json
 import ALV.Model.C11
 import ALV.Spec.C11
 import ALV.Model.C11Hist
+import ALV.Model.C11Float
+import ALV.Model.C11Call
 namespace ALV.Driver.C11
 open ALV ALV.J ALV.C11 ALV.C11.Hist
 
 def ksJson (r : List Rat × Bool) : Json :=
   Json.mkObj [("ks", rats r.1), ("raised", Json.bool r.2)]
 
+
+/-! ### float regime: binary64 numbers travel as their bit patterns (JSON integers) -/
+
+def getBits (j : Json) : Except String F64 := do
+  let n ← getNat j
+  pure (F64.ofBits (UInt64.ofNat n))
+
+/-- exact rational value of a finite binary64 number -/
+def f64ToRat (x : F64) : Rat :=
+  let b : Nat := x.bits.toNat
+  let neg := b / 2 ^ 63 % 2 = 1
+  let ex : Nat := b / 2 ^ 52 % 2 ^ 11
+  let mant : Nat := b % 2 ^ 52
+  let (m, e) : Nat × Int := if ex = 0 then (mant, -1074) else (2 ^ 52 + mant, (ex : Int) - 1075)
+  let mi : Int := if neg then -(m : Int) else m
+  if e ≥ 0 then ((mi * 2 ^ e.toNat : Int) : Rat) else mkRat mi (2 ^ (-e).toNat)
+
+def bitsJson (l : List F64) : Json := arr (fun (x : F64) => natToJson x.bits.toNat) l
+
+def fksJson (r : List F64 × Bool) : Json :=
+  Json.mkObj [("bits", bitsJson r.1), ("raised", Json.bool r.2),
+              ("finite", Json.bool (r.1.all F64.isFinite))]
+
+def callResJson : CallRes Rat → Json
+  | .valueError => Json.mkObj [("err", Json.str "ValueError")]
+  | .zeroDiv => Json.mkObj [("err", Json.str "ZeroDivisionError")]
+  | .ok ks b => ksJson (ks, b)
 
 /-! ### payloads shared by the single-call entries and by the steps of a history -/
 
@@ -112,7 +141,10 @@ def handle (entry : String) (j : Json) : Except String Json := do
     let f := stepUp ks
     pure <| Json.mkObj [
       ("filter", rats f), ("model", ksJson (parcorCoded 1 f)), ("fixed", ksJson (parcorFixed f)),
-      ("spec", ksJson (parcorSpec f)), ("expected", rats ks.reverse)]
+      ("spec", ksJson (parcorSpec f)), ("expected", rats ks.reverse),
+      ("sharp", ksJson (cutAtUnit ks.reverse)),
+      ("stable_model", Json.bool (parcorStableFixed f)), ("stable_spec", Json.bool (parcorStableSpec f)),
+      ("all_inside", Json.bool (ks.all absLt1))]
   | "stable" =>
     -- parcor_stable(num / den), den built from prescribed poles
     let g ← getRat (← field j "gain")
@@ -145,6 +177,37 @@ def handle (entry : String) (j : Json) : Except String Json := do
         ("model", Json.mkObj [("a", rats a), ("error", ratToJson e), ("ks", rats ks)]),
         ("spec", Json.mkObj [("a", rats (stepUp ks)), ("error", ratToJson (errorSpec (r.headD 0) ks)),
                              ("parcor", ksJson (parcorSpec a)), ("expected", rats ks.reverse)])]
+  | "fparcor" =>
+    -- list(parcor(ZFilter(num))) and parcor_stable(ZFilter([1], num)) on binary64 coefficients:
+    -- the bit-exact twin (k ** 2 = libm pow), the generic model verbatim (k * k), and the exact
+    -- specification on the rational values of the same coefficients
+    let num ← getList getBits (← field j "bits")
+    let q := num.map f64ToRat
+    pure <| Json.mkObj [
+      ("twin", fksJson (parcorF64 num)), ("twin_mul", fksJson (parcorF64Mul num)),
+      ("twin_stable", Json.bool (parcorStableF64 num)),
+      ("input_finite", Json.bool (num.all F64.isFinite)),
+      ("exact", ksJson (parcorSpec q)), ("exact_stable", Json.bool (parcorStableSpec q)),
+      ("value", rats q)]
+  | "fpow" =>
+    -- the squaring function of the twin, for the libm identity check of the harness
+    let xs ← getList getBits (← field j "bits")
+    pure <| Json.mkObj [("pow", bitsJson (xs.map F64.sqPow)), ("mul", bitsJson (xs.map (fun x => x * x)))]
+  | "call" =>
+    -- parcor / parcor_stable on ZFilter(num, den) with Laurent numerator and denominator
+    let numLo ← getInt (← field j "num_lo")
+    let denLo ← getInt (← field j "den_lo")
+    let num ← getList getRat (← field j "num")
+    let den ← getList getRat (← field j "den")
+    let sd := shiftedDen den
+    let f := causalPart (numLo - (denLo + (leadZeros den : Int))) num
+    pure <| Json.mkObj [
+      ("parcor", callResJson (parcorCall numLo num denLo den)),
+      ("stable", match stableCall numLo num denLo den with
+        | none => Json.mkObj [("err", Json.str "ValueError")]
+        | some b => Json.bool b),
+      ("shifted_den", rats sd), ("causal_num", rats f),
+      ("spec_parcor", ksJson (parcorSpec f)), ("spec_stable", Json.bool (parcorStableSpec sd))]
   | "hist" =>
     -- a history of operations on mutable filter objects
     let ops ← getList getOp (← field j "ops")
